@@ -19,6 +19,10 @@ struct Scenario {
     threads: usize,
     perturb: Option<u64>,
     shuffle_seed: u64,
+    /// consumer threads that panic before they receive anything (`panic_idle:Consumer_<i>`)
+    idle: Vec<usize>,
+    /// the producer panics before its k-th send (`panic_producer:<k>`)
+    prod_k: Option<usize>,
 }
 
 fn run_scenario(rep: &mut Report, tag: &str, sc: &Scenario, reqs: &mut Vec<String>, ctx: &mut Vec<serde_json::Value>) {
@@ -36,6 +40,13 @@ fn run_scenario(rep: &mut Report, tag: &str, sc: &Scenario, reqs: &mut Vec<Strin
     if !rej_ids.is_empty() {
         fault.push(format!("reject:{}", rej_ids.join(",")));
     }
+    if !sc.idle.is_empty() {
+        fault.push(format!("panic_idle:{}", sc.idle.iter().map(|i| format!("Consumer_{}", i)).collect::<Vec<_>>().join(",")));
+    }
+    if let Some(k) = sc.prod_k {
+        fault.push(format!("panic_producer:{}", k));
+    }
+    let some_death = !sc.die.is_empty() || !sc.idle.is_empty() || sc.prod_k.is_some();
     let cfg = RunCfg {
         dir: &dir,
         args: args.clone(),
@@ -48,11 +59,21 @@ fn run_scenario(rep: &mut Report, tag: &str, sc: &Scenario, reqs: &mut Vec<Strin
     let out = run_grcov(&cfg);
     let case = json!({"op": "faults", "threads": sc.threads, "args": args, "perturb": sc.perturb,
         "die": sc.die, "reject": sc.reject, "natural": sc.natural, "shuffle_seed": sc.shuffle_seed,
+        "idle": sc.idle, "prod_k": sc.prod_k,
         "inputs": sc.inputs.iter().map(|i| json!({"name": i.name, "hex": hex(&i.bytes)})).collect::<Vec<_>>()});
     rep.case(
         &format!("{} {:?} {:?} {:?} {:?}", sc.threads, args, sc.perturb, sc.die, sc.reject),
-        !sc.die.is_empty() || !sc.reject.is_empty() || !sc.natural.is_empty(),
+        some_death || !sc.reject.is_empty() || !sc.natural.is_empty(),
     );
+    if !sc.idle.is_empty() {
+        rep.count(&format!("idle_deaths={}_of_{}", sc.idle.len(), sc.threads));
+        if sc.idle.len() == sc.threads {
+            rep.count("idle_deaths.all_workers");
+        }
+    }
+    if let Some(k) = sc.prod_k {
+        rep.count(if k == 0 { "producer_death.injected.first_send" } else if k + 1 == sc.inputs.len() { "producer_death.injected.last_send" } else { "producer_death.injected.middle" });
+    }
     rep.count(&format!("naturally_rejected={}", sc.natural.len()));
     rep.count(&format!("threads={}", sc.threads));
     rep.count(&format!("dies={}", sc.die.len()));
@@ -73,11 +94,11 @@ fn run_scenario(rep: &mut Report, tag: &str, sc: &Scenario, reqs: &mut Vec<Strin
         }
         Some(code) => {
             rep.count(&format!("outcome.exit={}", if code == 0 { "0" } else { "nonzero" }));
-            if !sc.die.is_empty() && code == 0 {
-                rep.fail("oracle", None, "a worker thread died but grcov exited with status 0".into(), case.clone());
+            if some_death && code == 0 {
+                rep.fail("oracle", None, "a worker thread or the producer died but grcov exited with status 0".into(), case.clone());
                 return;
             }
-            if sc.die.is_empty() {
+            if !some_death {
                 if code != 0 {
                     rep.fail("oracle", None, format!("no worker died but grcov exited with status {}", code), case.clone());
                     return;
@@ -360,6 +381,38 @@ fn producer_deaths(rep: &mut Report, rng: &mut Rng, reqs: &mut Vec<String>, ctx:
     }
 }
 
+/// Deaths that are not tied to an item: consumer threads that panic before their receive loop
+/// (one of several, several, ALL of them – then the producer's next send fails and it dies too)
+/// and a producer that panics before its first, a middle or its last send. The process must end,
+/// with a non-zero status, and the event log must be a run of the model with `workerDies` at idle
+/// resp. `prodDies` at that point.
+fn injected_deaths(rep: &mut Report, rng: &mut Rng, reqs: &mut Vec<String>, ctx: &mut Vec<serde_json::Value>) {
+    let n = rep.budget(18, 8);
+    for c in 0..n {
+        let k = rng.range(2, 10) as usize;
+        let inputs = gen_inputs(rng, k);
+        let threads = *rng.pick(&[1usize, 2, 3, 4]);
+        let (idle, prod_k): (Vec<usize>, Option<usize>) = match c % 6 {
+            0 => (vec![rng.below(threads as u64) as usize], None),
+            1 => ((0..threads).collect(), None),
+            2 => {
+                let mut v: Vec<usize> = (0..threads).collect();
+                rng.shuffle(&mut v);
+                v.truncate((threads / 2).max(1));
+                (v, None)
+            }
+            3 => (vec![], Some(0)),
+            4 => (vec![], Some(k - 1)),
+            _ => (vec![], Some(k / 2)),
+        };
+        // some of the scenarios also lose an item to a dying worker or reject one
+        let die = if c % 5 == 4 { vec![rng.below(k as u64) as usize] } else { vec![] };
+        let sc = Scenario { inputs, die, reject: vec![], natural: vec![], threads,
+            perturb: if rng.chance(1, 2) { None } else { Some(rng.next() % 100000) }, shuffle_seed: rng.next(), idle, prod_k };
+        run_scenario(rep, &format!("inj{}", c), &sc, reqs, ctx);
+    }
+}
+
 pub fn run(rep: &mut Report) {
     rep.rule = "input sets of 2-12 .info/.xml files; subsets of 0-3 inputs kill their worker and 0-2 are rejected \
                 by the hook, 0-2 more are damaged so that the real parser rejects them; a second stream feeds gcc-compiled \
@@ -372,12 +425,13 @@ pub fn run(rep: &mut Report) {
     let mut ctx = vec![];
     gcc_rejections(rep, &mut rng.fork());
     producer_deaths(rep, &mut rng.fork(), &mut reqs, &mut ctx);
+    injected_deaths(rep, &mut rng.fork(), &mut reqs, &mut ctx);
     // fixed scenarios: all workers die early, many items remain (witness of the repaired deadlock)
     for (t, (threads, k)) in [(1usize, 5usize), (1, 9), (2, 12), (3, 14)].iter().enumerate() {
         let inputs = gen_inputs(&mut rng, *k);
         // every input kills its worker: whichever items are picked up first, all workers die
         let die: Vec<usize> = (0..*k).collect();
-        let sc = Scenario { inputs, die, reject: vec![], natural: vec![], threads: *threads, perturb: None, shuffle_seed: t as u64 };
+        let sc = Scenario { inputs, die, reject: vec![], natural: vec![], threads: *threads, perturb: None, shuffle_seed: t as u64, idle: vec![], prod_k: None };
         run_scenario(rep, &format!("fixed{}", t), &sc, &mut reqs, &mut ctx);
     }
     let n = rep.budget(150, 20);
@@ -409,6 +463,8 @@ pub fn run(rep: &mut Report) {
             threads,
             perturb: if rng.chance(1, 3) { None } else { Some(rng.next() % 100000) },
             shuffle_seed: rng.next(),
+            idle: vec![],
+            prod_k: None,
         };
         run_scenario(rep, &format!("s{}", i), &sc, &mut reqs, &mut ctx);
     }
@@ -455,6 +511,8 @@ pub fn replay(rep: &mut Report, case: &serde_json::Value) {
         threads: c["threads"].as_u64().unwrap() as usize,
         perturb: c["perturb"].as_u64(),
         shuffle_seed: c["shuffle_seed"].as_u64().unwrap_or(0),
+        idle: idxs(&c["idle"]),
+        prod_k: c["prod_k"].as_u64().map(|k| k as usize),
     };
     let mut reqs = vec![];
     let mut ctx = vec![];
